@@ -240,7 +240,7 @@ func (c04) Gen(r *sim.RNG, tier string, idx int) *Scenario {
 			stripRelDirIDsIfCyclic(sc.World)
 		}
 		if r.Bool(0.4) {
-			sc.Faults = DrawFaults(sc.World, r, 1+r.Intn(2), []string{sim.FRefuse, sim.FTorn, sim.FFlip, sim.FIllTyped, sim.FTrail}, nil, true)
+			sc.Faults = DrawFaults(sc.World, r, 1+r.Intn(2), []string{sim.FRefuse, sim.FTorn, sim.FFlip, sim.FIllTyped, sim.FTrail, sim.FEmpty}, nil, true)
 		}
 	}
 	sc.Opts = Opts{Skip: r.Bool(0.3), Continue: r.Bool(0.5), Absolute: r.Bool(0.3)}
